@@ -120,7 +120,11 @@ StrokeMem(tag, g, sp, q, cs0) ==     \* cs0 = StrokeContours(tag, g), computed o
        LET q16 == Q16(q)
            dx == q16[1] - 16 * g[1]  dy == q16[2] - 16 * g[2]
            d2 == dx * dx + dy * dy
-           lo == 16 * g[3] - 8 * sp.w   hi == 16 * g[3] + 8 * sp.w
+           \* (zero-length dashes with square caps are squares about points: bounded by the cap reach only)
+           arrC == DashArr(sp.dash)
+           dotsC == sp.cap = "square" /\ \E k \in 1..Len(arrC) : k % 2 = 1 /\ arrC[k] = 0
+           ext == IF dotsC THEN (8 * sp.w * 3) \div 2 + 1 ELSE 8 * sp.w
+           lo == 16 * g[3] - ext   hi == 16 * g[3] + ext
        IN IF sp.dash # <<>> THEN (IF d2 > (hi + Beta16) * (hi + Beta16) \/ (lo > Beta16 /\ d2 < (lo - Beta16) * (lo - Beta16))
                                    THEN "out" ELSE "band")
           ELSE IF d2 < (hi - Beta16) * (hi - Beta16) /\ (lo + Beta16 <= 0 \/ d2 > (lo + Beta16) * (lo + Beta16)) THEN "in"
